@@ -8,6 +8,10 @@ CONSTANTS NAlpha = 68
  TailStride = 1
  NDir = 8
  NEnd = 12
+ NZ = 8
+ NZStruct = 6
+ NCtx = 18
+ NValCtx = 12
  Emit = TRUE
 INVARIANT WellFormed
 CHECK_DEADLOCK FALSE
